@@ -383,9 +383,11 @@ class BoolMat:
 class Arr2:
     """2-D array of opaque cell values"""
 
-    def __init__(self, rows):
+    def __init__(self, rows, dtype='float32', c_contiguous=True):
         self.rows = [list(r) for r in rows]
         self.shape = (len(self.rows), len(self.rows[0]) if self.rows else 0)
+        self.dtype = dtype
+        self.c_contiguous = c_contiguous        # False: a strided view into a larger buffer
 
     def __setitem__(self, key, v):
         if isinstance(key, BoolMat):
@@ -428,6 +430,31 @@ class NumpyModule:
         if not isinstance(n, int):
             raise Unsupported('numpy.ones shape')
         return BoolVec([True] * n)
+
+    float32 = 'float32'
+    float64 = 'float64'
+
+    @staticmethod
+    def _convert(a, dtype, need_contiguous):
+        """numpy.asarray / ascontiguousarray on the 2-D stand-in: the same object when nothing has to change, else a detached copy
+        (cells narrowed to float32 are marked: the value is a rounding of the original)"""
+        if not isinstance(a, Arr2):
+            raise Unsupported('numpy array conversion of %s' % type(a).__name__)
+        dtype = a.dtype if dtype is None else dtype
+        if dtype not in ('float32', 'float64'):
+            raise Unsupported('numpy dtype %r' % (dtype,))
+        if dtype == a.dtype and (a.c_contiguous or not need_contiguous):
+            return a
+        narrow = (a.dtype == 'float64' and dtype == 'float32')
+        return Arr2([[('rounded-to-float32', x) if narrow else x for x in r] for r in a.rows], dtype=dtype, c_contiguous=True)
+
+    @staticmethod
+    def ascontiguousarray(a, dtype=None):
+        return NumpyModule._convert(a, dtype, True)
+
+    @staticmethod
+    def asarray(a, dtype=None):
+        return NumpyModule._convert(a, dtype, False)
 
     @staticmethod
     def zeros(shape, dtype=None):
